@@ -3,7 +3,7 @@
 From Coq Require Import List Arith Bool.
 Import ListNotations.
 From SV Require Import Model.Object Spec.ObjectSpec Proofs.ObjectProofs Proofs.ObjectThms
-  Proofs.ObjectIdem Instances.ObjectExamples.
+  Proofs.ObjectIdem Proofs.ObjectConfig Proofs.ObjectTail Instances.ObjectExamples.
 
 (** The material part of the provenance of form_factors_tilde and energy_init_source depends on the
     table list and brdf_index only through the per-wall resolution: overwritten tables and the order of
@@ -68,3 +68,32 @@ Theorem C16_idempotent_exchange (g : geo) (s : ostate) (tid ns order : nat) :
   oexchange g (snd (oexchange g s tid ns order true)) tid ns order true = oexchange g s tid ns order true.
 Proof. exact (exchange_idem g s tid ns order). Qed.
 Print Assumptions C16_idempotent_exchange.
+
+(** Results depend only on the configuration in force.  Whatever two histories did (re-assignments,
+    earlier bakes, sources, exchanges, collections, round trips), once they have led to states that
+    agree on the configuration fields (geometry, frequencies, BRDF list / index / direction lists,
+    attenuation), the tail  bake; init_source src; exchange(recalculate)  answers with the same
+    classes up to the first failure and, when it succeeds, every receiver collection -- with or
+    without direct sound -- has the same provenance.  No cached field (visibility, pairs, form
+    factors, slot map, distances, initial energy, histogram, timing, source) of either state enters. *)
+Theorem C16_final_config_history_independent (g : geo) (h h' : list op) (src tid ns order : nat) :
+  cfg_eq (orun g (init g) h) (orun g (init g) h') ->
+  upto_fail (tail_classes g (orun g (init g) h) (tail src tid ns order)) =
+  upto_fail (tail_classes g (orun g (init g) h') (tail src tid ns order)) /\
+  (forallb rok (tail_classes g (orun g (init g) h) (tail src tid ns order)) = true ->
+   forall recv direct,
+     ocollect g (orun g (init g) (h ++ tail src tid ns order)) recv direct =
+     ocollect g (orun g (init g) (h' ++ tail src tid ns order)) recv direct).
+Proof. exact (final_config_history_independent g h h' src tid ns order). Qed.
+Print Assumptions C16_final_config_history_independent.
+
+(** The same for two arbitrary states (not necessarily reachable). *)
+Theorem C16_final_config_state_independent (g : geo) (s s' : ostate) (src tid ns order : nat) :
+  cfg_eq s s' ->
+  upto_fail (tail_classes g s (tail src tid ns order)) = upto_fail (tail_classes g s' (tail src tid ns order)) /\
+  (forallb rok (tail_classes g s (tail src tid ns order)) = true ->
+   forall recv direct,
+     ocollect g (orun g s (tail src tid ns order)) recv direct =
+     ocollect g (orun g s' (tail src tid ns order)) recv direct).
+Proof. exact (tail_cfg g s s' src tid ns order). Qed.
+Print Assumptions C16_final_config_state_independent.
